@@ -590,6 +590,13 @@ class Evaluator:
                     name = at[1]
         elif isinstance(base, ast.Attribute):
             name = ast.unparse(base)
+        elif isinstance(base, ast.Subscript) and getattr(
+                self, "compose_rows", False):
+            inner = self.load(env, base)
+            at = inner.as_atom() if isinstance(inner, Poly) else None
+            if at is None or at[0] != "cell":
+                raise Unsupported("subscript base", n)
+            name, prefix = at[1], tuple(at[2])
         else:
             raise Unsupported("subscript base", n)
         idx = prefix + self.index(env, n.slice)
